@@ -645,6 +645,13 @@ def rounding_count(node, exact_atoms=()):
             r = Fr(0) if exact_const(n.val) else Fr(1)
         elif op == 'atom':
             r = Fr(0) if (n.val[0] in exact_atoms or not (n.val[0] in ('pi',) or n.val[0].startswith('const_'))) else Fr(1)
+        elif op in ('mul', 'div') and any(t.op == ('div' if op == 'mul' else 'mul') and any(u.uid == n.args[1 - i_].uid for u in (t.args[1:] if op == 'mul' else t.args)) for i_, t in enumerate(n.args) if (op == 'mul' or i_ == 0)):
+            # (x / c) * c and (x * c) / c with the very same c: whatever error c carries cancels, two roundings remain
+            i_ = next(i_ for i_, t in enumerate(n.args) if (op == 'mul' or i_ == 0) and t.op == ('div' if op == 'mul' else 'mul') and any(u.uid == n.args[1 - i_].uid for u in (t.args[1:] if op == 'mul' else t.args)))
+            inner = n.args[i_]; c_ = n.args[1 - i_]
+            rest = inner.args[0] if op == 'mul' else next(u for u in inner.args if u.uid != c_.uid) if any(u.uid != c_.uid for u in inner.args) else inner.args[0]
+            a = k(rest)
+            r = None if a is None or k(c_) is None else a + 2
         elif op in ('mul', 'div'):
             a, b = k(n.args[0]), k(n.args[1])
             r = None if a is None or b is None else a + b + 1
